@@ -125,6 +125,23 @@ def check_eval2(ctx: Ctx, c: Dict[str, Any]) -> None:
             outW = B.evaluate_cubic_bspline(coeff, stride=s[0], size=tuple(m), kernel=wS)[0, 0]
             if tuple(outW.shape) != tuple(f.shape) or max_err(outW, f) > 1e-9 * scale:
                 ctx.violation(dict(op="evaluate_cubic_bspline", kernels="single weights", **sig0), f"2-D evaluation with ONE weight table for all axes (stride={s[0]}) differs", c)
+        if d == [0, 0]:
+            # subdivision along SOME axes, named in every accepted way: x only (0, 'x', SpatialDim.X, [0]), then y, equals subdividing both at once
+            from deepali.core.enum import SpatialDim
+
+            both = B.subdivide_cubic_bspline(coeff)
+            Yc, Xc = coeff.shape[2:]
+            for form, dx_ in (("0", 0), ("'x'", "x"), ("SpatialDim.X", SpatialDim.X), ("[0]", [0]), ("(SpatialDim.X,)", (SpatialDim.X,))):
+                sx_ = B.subdivide_cubic_bspline(coeff, dims=dx_)
+                if tuple(sx_.shape[2:]) != (Yc, 2 * Xc - 1):
+                    ctx.violation(dict(op="subdivide_cubic_bspline", dims=form, what="shape", **sig0), f"subdivide_cubic_bspline(dims={form}) of a ({Yc}, {Xc}) lattice has shape {tuple(sx_.shape[2:])}, expected ({Yc}, {2 * Xc - 1})", c)
+                    continue
+                sxy = B.subdivide_cubic_bspline(sx_, dims=1 if not isinstance(dx_, str) else "y")
+                if tuple(sxy.shape) != tuple(both.shape) or max_err(sxy, both) > 1e-12 * scale:
+                    ctx.violation(dict(op="subdivide_cubic_bspline", dims=form, what="order", **sig0), f"subdividing along x (dims={form}) and then along y differs from subdividing both axes at once", c)
+            sy_ = B.subdivide_cubic_bspline(coeff, dims=1)
+            if tuple(sy_.shape[2:]) != (2 * Yc - 1, Xc):
+                ctx.violation(dict(op="subdivide_cubic_bspline", dims="1", what="shape", **sig0), f"subdivide_cubic_bspline(dims=1) has shape {tuple(sy_.shape[2:])}", c)
         # the same derivative through spatial_derivatives(mode='bspline'): the spline derivative per coefficient spacing, divided by the
         # physical spacing of each axis once per derivative order along it
         if d != [0, 0]:
